@@ -12,6 +12,7 @@ CONSTANTS
   Filts = {"none"}
   Ops = {"pub", "rem"}
   MaxJumps = 0
+  EpochCheck = TRUE
   Pres = {3}
   N0s = {0}
   Contig = TRUE
